@@ -243,3 +243,45 @@ def stride_conflicts(f: Func):
         if len(sets) >= 2 and not frozenset.intersection(*sets):
             out.append((t, [sorted(x) for x in dict.fromkeys(sets)], us[0][1]))
     return out
+
+
+def optional_truthiness(fn_node: ast.AST):
+    """[(parameter, annotation, Name node)]: a parameter annotated `int | None`, `float | None` or `<type variable> |
+    None` (a state, a node label) whose bare truthiness is tested - `if p:`, `p or d`, `x if p else y`, `not p`.
+    0, 0.0 and any falsy state are legal values that such a test throws in with None."""
+    a = fn_node.args
+    tps = {t.name for t in getattr(fn_node, "type_params", [])}
+    risky = {}
+    for arg in a.posonlyargs + a.args + a.kwonlyargs:
+        if arg.annotation is None:
+            continue
+        t = ast.unparse(arg.annotation)
+        parts = [p_.strip() for p_ in t.split("|")]
+        if "None" not in parts:
+            continue
+        if any(p_ in ("int", "float") or p_ in tps or (len(p_) <= 2 and p_.isupper()) or p_ in ("Node", "State") for p_ in parts if p_ != "None"):
+            risky[arg.arg] = t
+    if not risky:
+        return []
+
+    def bare(e):
+        if isinstance(e, ast.Name) and e.id in risky:
+            return [e]
+        if isinstance(e, ast.UnaryOp) and isinstance(e.op, ast.Not):
+            return bare(e.operand)
+        if isinstance(e, ast.BoolOp):
+            return [x for v in e.values for x in bare(v)]
+        return []
+
+    found = {}
+    for n in ast.walk(fn_node):
+        hits = []
+        if isinstance(n, (ast.If, ast.While, ast.IfExp)):
+            hits = bare(n.test)
+        elif isinstance(n, ast.BoolOp):
+            hits = [x for v in n.values[:-1] for x in bare(v)]
+        elif isinstance(n, ast.comprehension):
+            hits = [x for c in n.ifs for x in bare(c)]
+        for h in hits:
+            found[id(h)] = (h.id, risky[h.id], h)
+    return list(found.values())
